@@ -6,12 +6,12 @@ namespace Roaring
 namespace Bitmap
 
 /-! ### directories written as `init ++ [last]` -/
-theorem elems_append (a b : Bitmap) : elems (a ++ b) = elems a ++ elems b := by
+private theorem elems_append (a b : Bitmap) : elems (a ++ b) = elems a ++ elems b := by
   simp [elems, List.flatMap_append]
 
-theorem elems_single (c : Container) : elems [c] = c.elems := by simp [elems]
+private theorem elems_single (c : Container) : elems [c] = c.elems := by simp [elems]
 
-theorem elems_cons (c : Container) (cs : Bitmap) : elems (c :: cs) = c.elems ++ elems cs := by
+private theorem elems_cons (c : Container) (cs : Bitmap) : elems (c :: cs) = c.elems ++ elems cs := by
   simp [elems]
 
 theorem dir_snoc_iff (init : Bitmap) (c : Container) :
@@ -624,7 +624,7 @@ theorem extend_spec (b : Bitmap) (h : b.WF) (vs : List Nat) (hvs : ∀ v ∈ vs,
     rw [← i2]
     exact ih _ i1 (fun x hx => hvs x (List.mem_cons_of_mem _ hx))
 
-theorem WF.tail {c : Container} {cs : Bitmap} (h : WF (c :: cs)) : WF cs :=
+private theorem WF.tail {c : Container} {cs : Bitmap} (h : WF (c :: cs)) : WF cs :=
   wf_of_dir _ h.dir.tail (fun d hd => h.ne d (List.mem_cons_of_mem _ hd))
 
 theorem cElems_length (c : Container) : c.elems.length = c.store.elems.length := by simp [Container.elems]
